@@ -74,7 +74,17 @@ class CallMixin:
                 all_ = True
             elif isinstance(n, (ast.Await, ast.Yield, ast.YieldFrom)):
                 all_ = True
+        detached = set()
+        for n in walk_no_nested(fi.node):
+            if isinstance(n, ast.Call):
+                fn = unparse(n.func)
+                if fn.split(".")[-1] in ("ensure_future", "create_task", "run_coroutine_threadsafe") or \
+                        (isinstance(n.func, ast.Attribute) and n.func.attr in DETACH_METHODS):
+                    for a in list(n.args) + [k.value for k in n.keywords]:
+                        detached.add(id(a))
         for cs in self.cg.sites(fi):
+            if id(cs.node) in detached:
+                continue  # runs later as its own task / callback, not as part of this call
             for tg in cs.targets:
                 if cs.kind == "callback" and not self._immediate_callback(cs, fi):
                     continue
